@@ -12,6 +12,7 @@ import (
 	"github.com/pentops/j5/gen/j5/ext/v1/ext_j5pb"
 	"github.com/pentops/j5/gen/j5/list/v1/list_j5pb"
 	"github.com/pentops/j5/gen/j5/schema/v1/schema_j5pb"
+	"github.com/pentops/j5/gen/j5/source/v1/source_j5pb"
 	"github.com/pentops/j5/lib/j5schema"
 	"google.golang.org/protobuf/proto"
 	"google.golang.org/protobuf/reflect/protoreflect"
@@ -954,6 +955,44 @@ func rootTerm(r *schema_j5pb.RootSchema, x bool) (string, error) {
 		return fmt.Sprintf("%s %s %s %s %s %s", con("XEnumR", "REnum"), Str(t.Enum.Name), Str(t.Enum.Description), Str(t.Enum.Prefix), list(opts), list(info)), nil
 	}
 	return "", fmt.Errorf("root without a type")
+}
+
+// APITerm renders the packages of a source_j5pb.API as a Coq [xapi] (coq/model/ExportApi.v): packages in
+// the order of the API, schema maps sorted by name.
+func APITerm(api *source_j5pb.API) (string, error) {
+	schemas := func(m map[string]*schema_j5pb.RootSchema) (string, error) {
+		var names []string
+		for n := range m {
+			names = append(names, n)
+		}
+		sort.Strings(names)
+		var it []string
+		for _, n := range names {
+			t, err := RootTerm(m[n])
+			if err != nil {
+				return "", fmt.Errorf("%s: %w", n, err)
+			}
+			it = append(it, fmt.Sprintf("(%s, %s)", Str(n), t))
+		}
+		return "[" + strings.Join(it, ";\n      ") + "]", nil
+	}
+	var pkgs []string
+	for _, p := range api.Packages {
+		ps, err := schemas(p.Schemas)
+		if err != nil {
+			return "", fmt.Errorf("%s: %w", p.Name, err)
+		}
+		var subs []string
+		for _, sp := range p.SubPackages {
+			ss, err := schemas(sp.Schemas)
+			if err != nil {
+				return "", fmt.Errorf("%s.%s: %w", p.Name, sp.Name, err)
+			}
+			subs = append(subs, fmt.Sprintf("XSub %s %s", Str(sp.Name), ss))
+		}
+		pkgs = append(pkgs, fmt.Sprintf("XPackage %s %s %s %s", Str(p.Name), boolT(p.Indirect), ps, list(subs)))
+	}
+	return "[" + strings.Join(pkgs, ";\n    ") + "]", nil
 }
 
 // ---------------------------------------------------------------- reflected schema objects -> Coq
